@@ -250,17 +250,22 @@ macro_rules! jitc {
     ($vm:expr) => {
         jitc!($vm, 0usize)
     };
-    ($vm:expr, $xoff:expr) => {{
-        // xoff: start the caller-supplied executable memory that many pages into the mapping (no_std only)
+    ($vm:expr, $xoff:expr) => {
+        jitc!($vm, $xoff, 0usize)
+    };
+    ($vm:expr, $xoff:expr, $xlen:expr) => {{
+        // xoff: start the caller-supplied executable memory that many pages into the mapping; xlen: hand over only that many
+        // bytes (0 = the rest of the mapping)  (no_std only)
         #[cfg(not(feature = "std"))]
         {
             let m = exec_mem();
             let k = ($xoff as usize) * 4096;
-            let _ = $vm.set_jit_exec_memory(&mut m[k..]);
+            let n = if ($xlen as usize) == 0 { m.len() - k } else { $xlen as usize };
+            let _ = $vm.set_jit_exec_memory(&mut m[k..k + n]);
         }
         #[cfg(feature = "std")]
         {
-            let _ = $xoff;
+            let _ = ($xoff, $xlen);
         }
         $vm.jit_compile()
     }};
@@ -284,6 +289,7 @@ pub struct RunReq {
     novf: bool,
     prev: bool,
     xoff: usize,
+    xlen: usize,
 }
 
 fn parse_run(m: &HashMap<String, String>) -> RunReq {
@@ -330,6 +336,7 @@ fn parse_run(m: &HashMap<String, String>) -> RunReq {
         novf: g("novf") == "1",
         prev: g("prev") == "1",
         xoff: if g("xoff").is_empty() { 0 } else { parse_i(&g("xoff")) as usize },
+        xlen: if g("xlen").is_empty() { 0 } else { parse_i(&g("xlen")) as usize },
     }
 }
 
@@ -388,7 +395,7 @@ fn exec_run(r: &RunReq) -> String {
                 }
                 status = match engine {
                     "interp" => fin!(vm.execute_program(mem, mbuff)),
-                    "jit" => match jitc!(vm, r.xoff) {
+                    "jit" => match jitc!(vm, r.xoff, r.xlen) {
                         Err(_) => "ERR:compile".to_string(),
                         Ok(()) => unsafe {
                             let mb: &'static mut [u8] = std::slice::from_raw_parts_mut(mbuff_p, r.mbuff.len());
@@ -426,7 +433,7 @@ fn exec_run(r: &RunReq) -> String {
                         }
                         fin!(vm.execute_program(m2))
                     }
-                    "jit" => match jitc!(vm, r.xoff) {
+                    "jit" => match jitc!(vm, r.xoff, r.xlen) {
                         Err(_) => "ERR:compile".to_string(),
                         Ok(()) => unsafe {
                             if r.prev {
@@ -460,7 +467,7 @@ fn exec_run(r: &RunReq) -> String {
                 let m2: &'static mut [u8] = unsafe { std::slice::from_raw_parts_mut(mem_p, r.mem.len()) };
                 status = match engine {
                     "interp" => fin!(vm.execute_program(m2)),
-                    "jit" => match jitc!(vm, r.xoff) {
+                    "jit" => match jitc!(vm, r.xoff, r.xlen) {
                         Err(_) => "ERR:compile".to_string(),
                         Ok(()) => unsafe { fin!(vm.execute_program_jit(m2)) },
                     },
@@ -483,7 +490,7 @@ fn exec_run(r: &RunReq) -> String {
                 }
                 status = match engine {
                     "interp" => fin!(vm.execute_program()),
-                    "jit" => match jitc!(vm, r.xoff) {
+                    "jit" => match jitc!(vm, r.xoff, r.xlen) {
                         Err(_) => "ERR:compile".to_string(),
                         Ok(()) => unsafe { fin!(vm.execute_program_jit()) },
                     },
